@@ -16,7 +16,10 @@ Nested == {Sc("nested", "vector", "idle", s, n) : s \in BOOLEAN, n \in {10, 600,
 \* a burst after which the tasking system is initialised again (with fewer / more / the same number of threads) while
 \* closures are still queued: what was scheduled before must still run exactly once
 Reinit == {Sc("reinit", "vector", f, s, n) : f \in {"fewer", "more", "same"}, s \in BOOLEAN, n \in {10, 1000}}
-Scenarios == ATasks \cup Asyncs \cup Bursts \cup Nested \cup Reinit
+\* closures scheduled back to back while every worker sleeps; closure k keeps its worker until closure k + 1 has started:
+\* every scheduled closure must be started "with no further action of the caller" while workers are idle (n <= workers)
+Chains == {Sc("chain", "vector", "idle", FALSE, n) : n \in {2, 3}}
+Scenarios == ATasks \cup Asyncs \cup Bursts \cup Nested \cup Reinit \cup Chains
 ASSUME PrintT(<<"SCENARIOS", Cardinality(Scenarios)>>)
 ASSUME ndJsonSerialize(IOEnv.OUT, SetToSeq(Scenarios))
 VARIABLE x
